@@ -50,7 +50,7 @@ static char const* MakeSymbolic(
 
     HexString(pBuffer, BufferSize, Address, AddrLen << 1);
     if (!pSymbolPrefix) {
-        if (isdigit(*pBuffer)) {
+        if (!isdigit(*pBuffer)) {
             strmaxprep(pBuffer, "0", BufferSize);
         }
         as_snprcatf(pBuffer, BufferSize, "%c", HexStartCharacter + ('h' - 'a'));
